@@ -382,6 +382,11 @@ func (g *GcsEmu) handleGcsUpdateMetadataRequest(ctx context.Context, baseUrl Htt
 			return fmt.Errorf("failed to update attrs of %s/%s: %w", bucket, filename, err)
 		}
 
+		// Respond with the updated metadata, read while the object is still locked.
+		obj, err = g.store.GetMeta(baseUrl, bucket, filename)
+		if err != nil {
+			return fmt.Errorf("failed to get meta for %s/%s: %w", bucket, filename, err)
+		}
 		return nil
 	})
 
@@ -391,13 +396,6 @@ func (g *GcsEmu) handleGcsUpdateMetadataRequest(ctx context.Context, baseUrl Htt
 	}
 	if obj == nil {
 		g.gapiError(w, http.StatusNotFound, fmt.Sprintf("%s/%s not found", bucket, filename))
-		return
-	}
-
-	// Respond with the updated metadata.
-	obj, err = g.store.GetMeta(baseUrl, bucket, filename)
-	if err != nil {
-		g.gapiError(w, http.StatusInternalServerError, fmt.Sprintf("failed to get meta for %s/%s: %s", bucket, filename, err))
 		return
 	}
 	g.jsonRespond(w, obj)
@@ -651,6 +649,7 @@ func (g *GcsEmu) finishUpload(ctx context.Context, baseUrl HttpBaseUrl, obj *sto
 	}
 	obj.Md5Hash = md5Hash
 
+	var meta *storage.Object
 	err := g.locks.Run(ctx, lockName(bucket, filename), func(ctx context.Context) error {
 		// Find the existing file / meta.
 		existing, err := g.store.GetMeta(baseUrl, bucket, filename)
@@ -669,17 +668,21 @@ func (g *GcsEmu) finishUpload(ctx context.Context, baseUrl HttpBaseUrl, obj *sto
 		if err := g.store.Add(bucket, filename, contents, obj); err != nil {
 			return fmt.Errorf("failed to create %s/%s: %w", bucket, filename, err)
 		}
+
+		// respond with object metadata, read while the object is still locked so that it
+		// describes this upload and not a later writer's
+		meta, err = g.store.GetMeta(baseUrl, bucket, filename)
+		if err != nil {
+			return fmt.Errorf("failed to get meta for %s/%s: %w", bucket, filename, err)
+		}
+		if meta == nil {
+			return fmt.Errorf("failed to get meta for %s/%s: object vanished", bucket, filename)
+		}
 		return nil
 	})
 
 	if err != nil {
 		return nil, err
-	}
-
-	// respond with object metadata
-	meta, err := g.store.GetMeta(baseUrl, bucket, filename)
-	if err != nil {
-		return nil, fmt.Errorf("failed to get meta for %s/%s: %w", bucket, filename, err)
 	}
 	return meta, nil
 }
